@@ -1,17 +1,31 @@
 /* VERIF-UNIT
 {
  "name": "icount_fullmap",
- "props": ["C02", "C06"],
+ "props": [
+  "C02",
+  "C06"
+ ],
  "level": "U",
- "tier": "wip",
+ "tier": "quick",
  "harness": "h_ic_fullmap",
- "defines": ["EXT2_CUSTOM_MEMORY_ROUTINES"],
+ "defines": [
+  "EXT2_CUSTOM_MEMORY_ROUTINES"
+ ],
  "unwind": 10,
  "unwind_reason": "loop-free (memset of the map is CBMC's array primitive); 10 covers the loops of the contract-instrumentation library",
- "functions": ["lib/ext2fs/icount.c:alloc_icount", "lib/ext2fs/icount.c:ext2fs_create_icount2", "lib/ext2fs/icount.c:ext2fs_icount_fetch", "lib/ext2fs/icount.c:ext2fs_icount_increment", "lib/ext2fs/icount.c:ext2fs_icount_decrement", "lib/ext2fs/icount.c:ext2fs_icount_store"],
- "assumes": ["full-map mode (EXT2_ICOUNT_OPT_FULLMAP | EXT2_ICOUNT_OPT_INCREMENT, e2fsck -E inode_count_fullmap); s_inodes_count in 1..4096 (object-size cap for the zero-fill; the 32-bit wrap of 'unsigned sz' for >= 2^31 inodes is outside this cap)",
-	     "the container is built by the REAL ext2fs_create_icount2 / alloc_icount; ext2fs_get_mem as malloc (the case 'allocation fails, fall back to bitmaps' is cut off)",
-	     "FAILS ON THE PINNED TREE (genuine defect, findings/C02_ds_icount_fullmap_last_inode): the map has s_inodes_count entries but is indexed by inode numbers 1..s_inodes_count"],
+ "functions": [
+  "lib/ext2fs/icount.c:alloc_icount",
+  "lib/ext2fs/icount.c:ext2fs_create_icount2",
+  "lib/ext2fs/icount.c:ext2fs_icount_fetch",
+  "lib/ext2fs/icount.c:ext2fs_icount_increment",
+  "lib/ext2fs/icount.c:ext2fs_icount_decrement",
+  "lib/ext2fs/icount.c:ext2fs_icount_store"
+ ],
+ "assumes": [
+  "full-map mode (EXT2_ICOUNT_OPT_FULLMAP | EXT2_ICOUNT_OPT_INCREMENT, e2fsck -E inode_count_fullmap); s_inodes_count in 1..4096 (object-size cap for the zero-fill; the 32-bit wrap of 'unsigned sz' for >= 2^31 inodes is outside this cap)",
+  "the container is built by the REAL ext2fs_create_icount2 / alloc_icount; ext2fs_get_mem as malloc (the case 'allocation fails, fall back to bitmaps' is cut off)",
+  "FAILS ON THE PINNED TREE (genuine defect, findings/C02_ds_icount_fullmap_last_inode): the map has s_inodes_count entries but is indexed by inode numbers 1..s_inodes_count"
+ ],
  "native": false
 }
 */
